@@ -87,6 +87,99 @@ fn bump_key<C: Curve>(k: &mut CommitmentKey<C>, r: &mut CRng) -> &'static str {
 
 fn seq_offsets(n: usize) -> Vec<usize> { (0..n).map(|i| 32 * i).collect() }
 
+/// One length-prefixed vector (or map) inside a serialized response.
+#[derive(Clone, Debug)]
+pub struct VecDesc {
+    pub name: String,
+    /// offset and width (2 or 4 bytes, big endian) of the element count
+    pub len_off: usize,
+    pub len_width: usize,
+    /// byte ranges of the elements
+    pub elems: Vec<(usize, usize)>,
+    /// an element to insert when the vector is empty
+    pub template: Vec<u8>,
+    /// map: the first byte of an element is its (strictly increasing) key
+    pub keyed: bool,
+}
+
+impl VecDesc {
+    fn shifted(mut self, by: usize, prefix: &str) -> VecDesc {
+        self.len_off += by;
+        for e in self.elems.iter_mut() {
+            e.0 += by;
+            e.1 += by;
+        }
+        self.name = format!("{}{}", prefix, self.name);
+        self
+    }
+
+    fn fixed(name: &str, len_off: usize, len_width: usize, count: usize, elem_size: usize) -> VecDesc {
+        let start = len_off + len_width;
+        VecDesc { name: name.into(), len_off, len_width, elems: (0..count).map(|i| (start + i * elem_size, start + (i + 1) * elem_size)).collect(), template: vec![0u8; elem_size], keyed: false }
+    }
+
+    fn with_count(&self, b: &mut [u8], n: usize) {
+        if self.len_width == 2 {
+            b[self.len_off..self.len_off + 2].copy_from_slice(&(n as u16).to_be_bytes());
+        } else {
+            b[self.len_off..self.len_off + 4].copy_from_slice(&(n as u32).to_be_bytes());
+        }
+    }
+
+    /// the shape changing variants of `bytes`: (what, new bytes)
+    pub fn shape_variants(&self, bytes: &[u8]) -> Vec<(String, Vec<u8>)> {
+        let mut out = vec![];
+        let n = self.elems.len();
+        let end = self.elems.last().map(|e| e.1).unwrap_or(self.len_off + self.len_width);
+        // one more element: a copy of the last one (or the template)
+        {
+            let mut elem = self.elems.last().map(|e| bytes[e.0..e.1].to_vec()).unwrap_or_else(|| self.template.clone());
+            let ok = if self.keyed {
+                if elem[0] == 255 {
+                    false
+                } else {
+                    elem[0] += 1;
+                    true
+                }
+            } else {
+                true
+            };
+            if ok {
+                let mut b = bytes[..end].to_vec();
+                b.extend_from_slice(&elem);
+                b.extend_from_slice(&bytes[end..]);
+                self.with_count(&mut b, n + 1);
+                out.push((format!("{}.appended", self.name), b));
+            }
+        }
+        if n > 0 {
+            // last element removed
+            let (s0, e0) = self.elems[n - 1];
+            let mut b = bytes[..s0].to_vec();
+            b.extend_from_slice(&bytes[e0..]);
+            self.with_count(&mut b, n - 1);
+            out.push((format!("{}.removed", self.name), b));
+            // first element duplicated in place
+            if !self.keyed {
+                let (s1, e1) = self.elems[0];
+                let mut b = bytes[..e1].to_vec();
+                b.extend_from_slice(&bytes[s1..e1]);
+                b.extend_from_slice(&bytes[e1..]);
+                self.with_count(&mut b, n + 1);
+                out.push((format!("{}.duplicated", self.name), b));
+            }
+            // count says one more than there is (trailing data missing) / one fewer (trailing garbage)
+            let mut b = bytes.to_vec();
+            self.with_count(&mut b, n + 1);
+            out.push((format!("{}.count+1", self.name), b));
+            let mut b = bytes.to_vec();
+            self.with_count(&mut b, n - 1);
+            out.push((format!("{}.count-1", self.name), b));
+        }
+        out
+    }
+}
+
 /// A protocol instance generator with per-field perturbation.
 pub trait Inst {
     type P: SigmaProtocol;
@@ -101,6 +194,8 @@ pub trait Inst {
     fn resp_scalars(p: &Self::P, resp: &[u8]) -> Vec<usize>;
     /// sizes to use (where the protocol has a size parameter)
     fn sizes() -> Vec<usize> { vec![1] }
+    /// the variable-length parts (vectors / maps) of the serialized response
+    fn resp_vectors(_p: &Self::P, _resp: &[u8]) -> Vec<VecDesc> { vec![] }
     /// every leaf component of the statement that `perturb` can alter (indices
     /// normalised to `[]`); each must be observed to influence the transcript
     fn subs() -> Vec<&'static str> { vec![] }
@@ -372,6 +467,8 @@ impl Inst for AggDlogI {
     }
 
     fn resp_scalars(p: &Self::P, _b: &[u8]) -> Vec<usize> { (0..p.coeff.len()).map(|i| 4 + 32 * i).collect() }
+
+    fn resp_vectors(p: &Self::P, _b: &[u8]) -> Vec<VecDesc> { vec![VecDesc::fixed("response", 0, 4, p.coeff.len(), 32)] }
 }
 
 // ---------------------------------------------------------------- vcom_eq
@@ -460,6 +557,17 @@ impl Inst for VecComEqI {
             v.push(base + 33 * j + 1);
         }
         v
+    }
+
+    fn resp_vectors(p: &Self::P, b: &[u8]) -> Vec<VecDesc> {
+        let n = p.gis.len();
+        let map_len_off = 2 + 32 * n + 32;
+        let mut tis = VecDesc::fixed("tis", map_len_off, 2, p.comms.len(), 33);
+        tis.keyed = true;
+        if map_len_off + 2 + 33 * p.comms.len() != b.len() {
+            return vec![];
+        }
+        vec![VecDesc::fixed("sis", 0, 2, n, 32), tis]
     }
 }
 
@@ -561,6 +669,8 @@ impl Inst for ComEqSigI {
         }
         v
     }
+
+    fn resp_vectors(p: &Self::P, _b: &[u8]) -> Vec<VecDesc> { vec![VecDesc::fixed("response_commit", 32, 4, p.commitments.len(), 64)] }
 }
 
 // ---------------------------------------------------------------- ps_sig_known
@@ -664,6 +774,25 @@ impl Inst for PsSigKnownI {
             return vec![0];
         }
         v
+    }
+
+    fn resp_vectors(p: &Self::P, b: &[u8]) -> Vec<VecDesc> {
+        let mut elems = vec![];
+        let mut off = 36;
+        for m in &p.msgs {
+            let l = 1 + match m {
+                PsSigMsg::EqualToCommitment(_) => 64,
+                PsSigMsg::Public(_) => 0,
+                PsSigMsg::Known => 32,
+            };
+            elems.push((off, off + l));
+            off += l;
+        }
+        if off != b.len() {
+            return vec![];
+        }
+        // template: a `Public` response marker (tag of the second variant)
+        vec![VecDesc { name: "resp_msgs".into(), len_off: 32, len_width: 4, elems, template: vec![1u8], keyed: false }]
     }
 }
 
@@ -774,6 +903,11 @@ impl Inst for EncTransI {
         }
         v
     }
+
+    fn resp_vectors(p: &Self::P, _b: &[u8]) -> Vec<VecDesc> {
+        let n1 = p.encexp1.len();
+        vec![VecDesc::fixed("response_encexp1", 32, 4, n1, 64), VecDesc::fixed("response_encexp2", 36 + 64 * n1, 4, p.encexp2.len(), 64)]
+    }
 }
 
 // ---------------------------------------------------------------- compositions
@@ -827,6 +961,18 @@ impl<A: Inst, B: Inst> Inst for AndI<A, B> {
         v.extend(B::resp_scalars(&p.second, &b[l1..]).into_iter().map(|o| o + l1));
         v
     }
+
+    fn resp_vectors(p: &Self::P, b: &[u8]) -> Vec<VecDesc> {
+        let mut c = std::io::Cursor::new(b);
+        let r1: Option<<A::P as SigmaProtocol>::Response> = concordium_base::common::from_bytes(&mut c).ok();
+        if r1.is_none() {
+            return vec![];
+        }
+        let l1 = c.position() as usize;
+        let mut v: Vec<VecDesc> = A::resp_vectors(&p.first, &b[..l1]).into_iter().map(|d| d.shifted(0, "r1.")).collect();
+        v.extend(B::resp_vectors(&p.second, &b[l1..]).into_iter().map(|d| d.shifted(l1, "r2.")));
+        v
+    }
 }
 
 pub struct RepI<A>(std::marker::PhantomData<A>);
@@ -876,6 +1022,14 @@ impl<A: Inst> Inst for RepI<A> {
             v.extend(A::resp_scalars(q, &b[4 + i * each..4 + (i + 1) * each]).into_iter().map(|o| o + 4 + i * each));
         }
         v
+    }
+
+    fn resp_vectors(p: &Self::P, b: &[u8]) -> Vec<VecDesc> {
+        let n = p.protocols.len();
+        if n == 0 || b.len() < 4 || (b.len() - 4) % n != 0 {
+            return vec![];
+        }
+        vec![VecDesc::fixed("responses", 0, 4, n, (b.len() - 4) / n)]
     }
 }
 
@@ -1067,6 +1221,27 @@ pub fn drive<I: Inst>(ctx: &ChildCtx, sh: &mut Shard, idx: u64, r: &mut CRng) {
                     reject(sh, "response", &format!("response@{}", o), ver(&stmt, &p2, tk, &dom, false));
                 }
                 None => sh.hit(&format!("note.response_undeserializable.{}", name)),
+            }
+        }
+    }
+    // ---- shape of the response: every vector / map gets an element appended, removed, duplicated, and a wrong count
+    {
+        let rb = to_bytes(&proof.response);
+        for vd in I::resp_vectors(&stmt, &rb) {
+            for (what, b2) in vd.shape_variants(&rb) {
+                let class = what.rsplit('.').next().unwrap_or("").to_string();
+                match deser::<<I::P as SigmaProtocol>::Response>(&b2) {
+                    Some(resp) => {
+                        let p2 = SigmaProof { challenge: proof.challenge, response: resp };
+                        sh.hit(&format!("shape.{}.{}", name, class));
+                        reject(sh, "response.shape", &format!("response.{}", what), ver(&stmt, &p2, tk, &dom, false));
+                    }
+                    None => {
+                        sh.evaluations += 1;
+                        sh.hit("reject.expected");
+                        sh.hit(&format!("shape.{}.{}.undeserializable", name, class));
+                    }
+                }
             }
         }
     }
